@@ -20,7 +20,23 @@ def cond(name: str):
     return deco
 
 
+_LOADED = False
+
+
+def _load_all():
+    """rule modules register their own side conditions on import"""
+    global _LOADED
+    if _LOADED:
+        return
+    _LOADED = True
+    import importlib
+
+    for m in ("memo", "config", "search", "versions", "sidops", "pathops"):
+        importlib.import_module(f"sa.rules.{m}")
+
+
 def holds(ctx: Ctx, name: str) -> Tuple[bool, str]:
+    _load_all()
     if name not in _REG:
         raise AnalysisError(f"unknown side condition '{name}'")
     key = (id(ctx), name)
@@ -114,3 +130,104 @@ def _mapping_idempotent(ctx: Ctx):
     if not ok2:
         return False, d2
     return n > 0, f"{n} mappings with disjoint keys and values; no extra-key mapping"
+
+
+@cond("sid_to_dict_pair")
+def _sid_to_dict_pair(ctx: Ctx):
+    from . import config
+
+    r = config.rule_first(ctx)
+    bad = [f for f in r.findings if "untyped pair" in f.key or "resolver dispatch" in f.key]
+    if bad:
+        return False, bad[0].message
+    return True, "sid_to_dict returns (None, None) or (type, non-empty data)"
+
+
+@cond("get_as_loop_returns")
+def _get_as_loop_returns(ctx: Ctx):
+    from . import sidops
+
+    r = sidops.rule_nav(ctx)
+    bad = [f for f in r.findings if f.key[0].endswith("get_as")]
+    if bad:
+        return False, bad[0].message
+    return True, "get_as returns inside the loop at k == key, and key is known to be a field"
+
+
+@cond("dict_to_sid_callers_guarded")
+def _dict_to_sid_callers_guarded(ctx: Ctx):
+    """every caller of sid_resolver.dict_to_sid passes data that a dominating test found non-empty (or a
+    type that dict_to_type derived from it, which is empty for empty data)"""
+    from ..cfg import cfg_of
+    from ..dataflow import flow_of
+
+    target = ctx.p.function("spil.sid.core.sid_resolver.dict_to_sid")
+    n = 0
+    for cs in ctx.cg.callers.get(target.qualname, []):
+        f = cs.caller
+        if f.module.kind != "library" or not isinstance(cs.node, ast.Call) or not cs.node.args:
+            continue
+        n += 1
+        arg = cs.node.args[0]
+        cfg = cfg_of(f.node)
+        flow = flow_of(f.node)
+        names = {norm(arg)}
+        # names of values derived from the data by dict_to_type(...)
+        for d in flow.all_defs:
+            if d.kind == "assign" and isinstance(d.value, ast.Call) and (dotted(d.value.func) or "").endswith("dict_to_type") \
+                    and d.value.args and norm(d.value.args[0]) == norm(arg):
+                names.add(d.var)
+        ok = False
+        for t, lab in ctx.ef._dominating_tests(cfg, cs.node):
+            if isinstance(t, ast.UnaryOp) and isinstance(t.op, ast.Not) and norm(t.operand) in names and lab == "false":
+                ok = True
+            if norm(t) in names and lab == "true":
+                ok = True
+        if not ok and f.qualname == "spil.sid.core.sid_factory.dict_to_sid":
+            pass
+        if not ok:
+            return False, f"{f.qualname}: `{norm(cs.node)[:60]}` is not dominated by a non-empty test of its data"
+    return n >= 3, f"{n} call sites, each behind a non-empty test"
+
+
+@cond("sorted_search_called_nonempty")
+def _sorted_search_called_nonempty(ctx: Ctx):
+    from ..cfg import cfg_of
+    from ..dataflow import flow_of
+
+    f = ctx.p.function("spil.sid.read.finders.find_glob.FindByGlob.do_find")
+    cfg = cfg_of(f.node)
+    flow = flow_of(f.node)
+    calls = [n for n in own_nodes(f.node) if isinstance(n, ast.Call) and isinstance(n.func, ast.Attribute) and n.func.attr == "sorted_search"]
+    if not calls:
+        return False, "do_find no longer delegates to sorted_search"
+    for c in calls:
+        ok = False
+        for t, lab in ctx.ef._dominating_tests(cfg, c):
+            if lab != "true" or not isinstance(t, ast.Name):
+                continue
+            ds = [d for d in flow.all_defs if d.var == t.id and d.kind == "assign"]
+            if len(ds) == 1 and isinstance(ds[0].value, ast.Call) and dotted(ds[0].value.func) == "any":
+                inner = ds[0].value.args[0]
+                gens = getattr(inner, "generators", [])
+                if gens and norm(gens[0].iter) == norm(c.args[0] if c.args else ast.Name(id="?")):
+                    ok = True
+        if not ok:
+            return False, "sorted_search is not called under `any(... for ssid in search_sids)`"
+    for other in ctx.cg.callers.get("spil.sid.read.finders.find_glob.FindByGlob.sorted_search", []):
+        if other.caller is not f:
+            return False, f"sorted_search is also called from {other.caller.qualname}"
+    return True, "sorted_search is only called from do_find, under any(...) over the same list"
+
+
+@cond("factory_resolves")
+def _factory_resolves(ctx: Ctx):
+    sid = ctx.p.cls("spil.sid.sid.Sid")
+    fac = ctx.cg.factory_of(sid)
+    if fac is None:
+        return False, "Sid._factory does not name a function of the program"
+    new = ctx.p.find_method(sid, "__new__")
+    src = " ".join(norm(n) for n in own_nodes(new.node) if isinstance(n, ast.Assign))
+    if "cls._factory" not in src:
+        return False, "BaseSid.__new__ no longer reads cls._factory"
+    return True, f"_factory -> {fac.qualname}"
